@@ -23,6 +23,8 @@ R-C07-11 (= R-C06-6) check_track_is_supported validates head, cylinder and data
 R-C07-12 (= R-C10-7) zlib's total_in/total_out are not used as file positions in
          a function that resets the stream (the decompression loop would go
          back over consumed data for ever)
+R-C07-13 a member set as a by-product of each call in a loop (HfeFile::geom_ by
+         read_all_sectors) is read in the same loop pass, after that call
 """
 from ..runner import RuleResult
 from ..facts import AnalysisBroken
@@ -219,8 +221,11 @@ def _grown_before(fn, g, n, recv):
     out[cfg.entry] = False
     changed = True
 
+    reach = cfg.reachable()
+
     def block_out(b, upto=None):
-        st = all(out[p] for p in cfg.pred[b]) if cfg.pred[b] else False
+        preds = [p for p in cfg.pred[b] if p in reach]      # dead code constrains nothing
+        st = all(out[p] for p in preds) if preds else False
         if b == cfg.entry:
             st = False
         for e in cfg.blocks[b]["e"][:upto]:
@@ -231,6 +236,8 @@ def _grown_before(fn, g, n, recv):
     while changed:
         changed = False
         for b in cfg.blocks:
+            if b not in reach:
+                continue
             o = block_out(b)
             if o != out[b]:
                 out[b] = o
@@ -359,6 +366,86 @@ def rule_nonempty_access(prog, fixture=False):
             r.add(key, fn.loc(n), bool(why), why if why else
                   "%s.%s() is reached without any test that %s is non-empty: undefined behaviour (crash) on an "
                   "empty container" % (show(recv), nm, show(recv)))
+    return r
+
+
+
+# ---------------------------------------------------------------- R-C07-13
+def _fields_assigned(f):
+    """Names of members of *this that f assigns directly (whole-object assignment)."""
+    out = set()
+    for n in f.walk():
+        tgt = None
+        if n.get("k") == "BinaryOperator" and n.get("op") == "=":
+            tgt = n["c"][0]
+        elif n.get("k") == "CXXOperatorCallExpr" and n.get("op") == "=" and len(n["c"]) == 3:
+            tgt = n["c"][1]
+        t = strip_all(tgt) if tgt is not None else None
+        if t is not None and t.get("k") == "MemberExpr" and t.get("dk") == "Field":
+            base = strip_all(t["c"][0]) if t.get("c") else None
+            if base is None or base.get("k") == "CXXThisExpr":
+                out.add(t.get("n"))
+    return out
+
+
+def rule_side_effect_results(prog, fixture=False):
+    r = RuleResult("R-C07-13", "a member that a method sets as a by-product of each call (the geometry computed while "
+                   "decoding one side) is read in the same loop pass as the call it belongs to: values that go "
+                   "together (a side's sectors and the geometry derived from them) are not taken from different "
+                   "calls", floor=0 if fixture else 1)
+    for fn in prog.functions.values():
+        if not fn.cls:
+            continue
+        # calls, inside loops of fn, to methods of the same class that assign members
+        for call in fn.walk():
+            if call.get("k") != "CXXMemberCallExpr":
+                continue
+            recv = strip_all((strip(call["c"][0]) or {}).get("c", [None])[0]) if (strip(call["c"][0]) or {}).get("c") else None
+            if recv is not None and recv.get("k") != "CXXThisExpr":
+                continue
+            ts = [t for t in prog.call_targets(fn, call) if t.cls == fn.cls and t is not fn]
+            if not ts:
+                continue
+            fields = set()
+            for t in ts:
+                fields |= _fields_assigned(t)
+            if not fields:
+                continue
+            loop = None
+            for a in fn.ancestors(call):
+                if a.get("k") in ("ForStmt", "WhileStmt", "CXXForRangeStmt", "DoStmt"):
+                    loop = a
+                    break
+            if loop is None:
+                continue
+            loop_ids = {x["i"] for x in walk(loop)}
+            dom = fn.cfg.dominators()
+            cpos = fn.where().get(call["i"])
+            for rd in fn.walk():
+                if rd.get("k") != "MemberExpr" or rd.get("dk") != "Field" or rd.get("n") not in fields:
+                    continue
+                base = strip_all(rd["c"][0]) if rd.get("c") else None
+                if base is not None and base.get("k") != "CXXThisExpr":
+                    continue
+                # writes do not count
+                par = fn.parent(rd)
+                if par is not None and par.get("k") in ("BinaryOperator", "CXXOperatorCallExpr") and par.get("op") == "=" and \
+                        strip_all(par["c"][0] if par["k"] == "BinaryOperator" else par["c"][1]) is rd:
+                    continue
+                rpos = None
+                for a in [rd] + list(fn.ancestors(rd)):
+                    if a["i"] in fn.where():
+                        rpos = fn.where()[a["i"]]
+                        break
+                key = "%s::%s::%s after %s" % (fn.relfile(), fn.qn, rd.get("n"), ts[0].name)
+                inside = rd["i"] in loop_ids
+                after = bool(cpos and rpos and (cpos[0] in dom.get(rpos[0], set())) and (cpos[0] != rpos[0] or cpos[1] < rpos[1]))
+                ok = inside and after
+                r.add(key, fn.loc(rd), ok, "read in the pass that made the call" if ok else
+                      "`%s` is set afresh by every call of %s() in the loop at %s, but it is read %s: it then holds the "
+                      "value of the *last* call, not of the call whose other results it is combined with (e.g. a blank "
+                      "last side gives every side a geometry of 0 sectors per track: division by zero)" %
+                      (rd.get("n"), ts[0].name, fn.loc(loop), "outside that loop" if not inside else "before the call"))
     return r
 
 
@@ -1232,7 +1319,7 @@ def run(ctx):
             rule_reading_loops(prog), rule_alloc_taint(prog), rule_optional_access(prog), rule_divisors(prog),
             rule_diagnosed_failures(prog), rule_nonempty_access(prog),
             c06.rule_track_checks_unconditional(prog, rule_id="R-C07-11"),
-            c10.rule_counters_after_reset(prog, rule_id="R-C07-12")]
+            c10.rule_counters_after_reset(prog, rule_id="R-C07-12"), rule_side_effect_results(prog)]
 
 
 SELFTESTS = [
